@@ -127,14 +127,19 @@ def run_1d(case, rec):
             W = float(q[0]*rng.uniform(1.1, 1.6))          # q < W: the reflected part of the window
         if W and np.any(q < W):
             rec.bucket("q<W")
-        width = min(x for x in (L, W) if x > 0)
+        Lvec = np.full(npts, L)
+        if geom == "slit(L,0)" and (case["k"]//5) % 2 == 1:
+            # slit lengths that differ from point to point (merged instrument settings), the longest at the first point
+            Lvec = L*np.array([1.0, float(rng.uniform(0.5, 0.9)), float(rng.uniform(0.5, 0.9))])
+            rec.bucket("slit:lengths-differ-per-point")
+        width = min(x for x in (float(np.min(Lvec)), W) if x > 0)
         lo = float(np.min(np.abs(q - W))) if W and not np.any(q < W) else (1e-4*q0 if W else float(q[0]))
         hi = float(np.max(np.sqrt((q + W)**2 + L**2)))
-        exact = np.array([exact_slit(f, qi, L, W) for qi in q])
+        exact = np.array([exact_slit(f, qi, float(Li), W) for qi, Li in zip(q, Lvec)])
         monitor = {"slit(L,0)": "slit_length_converges", "slit(0,W)": "slit_width_converges",
                    "slit(L,W)": "slit_both_converges"}[geom]
         K = 1.0
-        desc = {"length": L, "width": W}
+        desc = {"length": Lvec if np.ptp(Lvec) > 0 else L, "width": W}
     h0 = width/float(rng.uniform(150, 400))
     include_q = not ((case["k"]//10) % 2 == 0 and geom in ("pinhole", "slit(L,0)"))
     rec.bucket("q_calc:contains-data-points" if include_q else "q_calc:without-data-points")
@@ -185,13 +190,14 @@ def run_1d(case, rec):
             res = resolution.Pinhole1D(q_in, s_in, q_calc=qc)
             owned = [q_in, s_in]
         elif mult == 2:
-            L_in = np.full(npts, L) if L else None
+            L_in = Lvec[perm].copy() if L else None
             W_in = np.full(npts, W) if W else None
             res = resolution.Slit1D(q_in, q_length=L_in, q_width=W_in, q_calc=qc)
             owned = [a_ for a_ in (q_in, L_in, W_in) if a_ is not None]
             rec.bucket("slit:per-point-arrays")
         else:
-            res = resolution.Slit1D(q_in, q_length=L if L else None, q_width=W if W else None, q_calc=qc)
+            L_in = Lvec[perm].copy() if (L and np.ptp(Lvec) > 0) else (L if L else None)
+            res = resolution.Slit1D(q_in, q_length=L_in, q_width=W if W else None, q_calc=qc)
             owned = [q_in]
         for a_ in owned:
             a_ *= 2.9
@@ -395,7 +401,12 @@ def run_dm(case, rec):
             d.dx = dq[order].copy()
             got = np.asarray(direct_model.DirectModel(d, model)(rg=rg, scale=scale, background=0.0), float)
         else:
-            got = np.asarray(direct_model.Iq("guinier", q[order].copy(), dq=dq[order].copy(), rg=rg, scale=scale, background=0.0), float)
+            # "no slit" is spelled None or 0 (scalar or per point) by callers of the helper: the widths given as dq apply
+            noslit = [{}, {"ql": 0, "qw": 0}, {"ql": None, "qw": 0.0}, {"ql": np.zeros(len(q))}][(k//2) % 4]
+            rec.bucket("Iq-helper:no-slit-spelled-" + ("-".join("%s=%s" % (a_, "zeros" if isinstance(b_, np.ndarray) else b_)
+                                                                 for a_, b_ in sorted(noslit.items())) or "omitted"))
+            got = np.asarray(direct_model.Iq("guinier", q[order].copy(), dq=dq[order].copy(), rg=rg, scale=scale, background=0.0,
+                                             **noslit), float)
         got = got[np.argsort(order)]                  # back to increasing q for the comparison
         exact = np.array([exact_pinhole(f, float(q[j]), float(dq[j])) for j in pidx])
         errs.append(np.abs(got[pidx] - exact))
